@@ -632,6 +632,9 @@ coap_ws_read(coap_session_t *session, uint8_t *data, size_t datalen) {
       return 0;
   }
 
+next_frame:
+  bytes_size = 0;
+  extra_hdr_len = 0;
   /* Get WebSockets frame if not already completely in */
   if (!session->ws->all_hdr_in) {
     ret = session->sock.lfunc[COAP_LAYER_WS].l_read(session,
@@ -709,6 +712,21 @@ coap_ws_read(coap_session_t *session, uint8_t *data, size_t datalen) {
     }
     coap_log_debug("*  %s: Packet size %zu\n", coap_session_str(session),
                    bytes_size);
+
+    if (bytes_size == 0) {
+      /*
+       * Frame without data: there is nothing to read and nothing to pass up,
+       * continue with what follows it.
+       */
+      ret = session->ws->hdr_ofs - 2 - extra_hdr_len;
+      memmove(session->ws->rd_header,
+              &session->ws->rd_header[2 + extra_hdr_len], ret);
+      session->ws->all_hdr_in = 0;
+      session->ws->hdr_ofs = (int)ret;
+      if (ret > 0)
+        goto next_frame;
+      return 0;
+    }
 
     /* Handle any data read in as a part of the header */
     ret = session->ws->hdr_ofs - 2 - extra_hdr_len;
